@@ -18,7 +18,7 @@ Local equivalents of things one would want in the shared core (see REPORT-C07.md
 import json
 
 from ..core import (AnalysisBroken, canon, strip, walk, norm_cond, last_member, forward,
-                    lvalue_steps, lvalue_root, evloc, names_of, SWAP, fold)
+                    lvalue_steps, lvalue_root, evloc, names_of, SWAP, NEG, fold)
 from ..analyses import (aval, refine, relevant_vars, liveness, _envkey, is_fail, callback_kind,
                         CALLBACK_FIELDS, HOOK_FIELDS)
 from .. import roles
@@ -80,6 +80,306 @@ def const_store(e):
 
 
 # --------------------------------------------------------------------------
+# cached addresses: `int *n = &st->numobjs; ... (*n)--`, `lh = &t->list_expired; lh->next = ...`
+# --------------------------------------------------------------------------
+
+def _uncast(x):
+    while isinstance(x, dict) and x.get('k') in ('cast', 'paren') and 'e' in x:
+        x = x['e']
+    return x
+
+
+def _read_of_var(x):
+    """name of the variable when x is a plain read of a variable (`load(var)`, casts allowed), else None"""
+    x = _uncast(x)
+    if isinstance(x, dict) and x.get('k') == 'load':
+        v = _uncast(x.get('e'))
+        if isinstance(v, dict) and v.get('k') == 'var':
+            return v['name']
+    return None
+
+
+def addr_deps(L):
+    """Names of the variables whose *value* the address of lvalue L is computed from, or None when computing the
+    address reads memory or has side effects (`&p->q->r` reads p->q)."""
+    L = _uncast(L)
+    if not isinstance(L, dict):
+        return None
+    k = L.get('k')
+    if k == 'var':
+        return set()
+    if k == 'member':
+        if L.get('arrow'):
+            n = _read_of_var(L['base'])
+            return {n} if n is not None else None
+        return addr_deps(L['base'])
+    if k == 'deref':
+        n = _read_of_var(L['e'])
+        return {n} if n is not None else None
+    if k == 'index':
+        if 'bound' in L:
+            d = addr_deps(L['base'])
+        else:
+            n = _read_of_var(L['base'])
+            d = {n} if n is not None else None
+        if d is None:
+            return None
+        i = _uncast(L['idx'])
+        if isinstance(i, dict) and i.get('k') == 'int':
+            return d
+        n = _read_of_var(L['idx'])
+        return (d | {n}) if n is not None else None
+    return None
+
+
+def _cached_addr(e):
+    """(local name, addr expression, deps) when the event is `p = &L` with a memory-read-free address."""
+    if e['ev'] != 'store' or e.get('op') != '=' or 'rhs' not in e:
+        return None
+    l = strip(e['lhs'])
+    if not (isinstance(l, dict) and l.get('k') == 'var' and l.get('vk') == 'local'):
+        return None
+    r = _uncast(e['rhs'])
+    if not (isinstance(r, dict) and r.get('k') == 'addr'):
+        return None
+    d = addr_deps(r['e'])
+    if d is None or l['name'] in d:
+        return None
+    return l['name'], r, d
+
+
+def deaddr(g):
+    """Replace reads of a pointer local that holds the address of a named location by that address, wherever the copy
+    is valid on every path (neither the local nor a variable the address is computed from was reassigned; the
+    address computation reads no memory, so stores and calls cannot invalidate it), and simplify `*&X` -> X,
+    `(&X)->f` -> X.f.  After this a counter stepped through a cached address (`int *n = &st->numobjs; (*n)--`), a list
+    link handled through `lh = &t->list_expired`, or a pointer returned by an accessor helper are the plain
+    accesses.  Mutates g (an inlined graph or a private copy); returns the number of reads replaced."""
+    from ..core import simplify, subst
+
+    # `*&X` with a value-read wrapper in between (an out-parameter `int *stop` substituted by `&stop`: `*stop = 1`
+    # becomes deref(load(addr(stop)))) is X
+    def undo(nd):
+        if nd.get('k') == 'deref':
+            b_ = nd.get('e')
+            while isinstance(b_, dict) and b_.get('k') in ('load', 'cast', 'paren') and 'e' in b_:
+                b_ = b_['e']
+            if isinstance(b_, dict) and b_.get('k') == 'addr':
+                return subst(b_['e'], undo)
+        return None
+
+    def has_deref_addr(x):
+        return any(y.get('k') == 'deref' and undo(y) is not None for y in walk(x))
+    for blk in g.blocks.values():
+        for e in blk.events:
+            for key in ('lhs', 'rhs', 'args', 'fnexpr', 'value', 'init'):
+                if key in e and isinstance(e[key], (dict, list)) and has_deref_addr(e[key]):
+                    e[key] = simplify(subst(e[key], undo))
+        if blk.term and blk.term.get('cond') is not None and has_deref_addr(blk.term['cond']):
+            blk.term = dict(blk.term, cond=simplify(subst(blk.term['cond'], undo)))
+    addr_taken = set()
+    for e in g.events():
+        if e['ev'] == 'enter':
+            continue            # marker of an inlined call: its arguments were substituted into the body
+        for x in walk(e):
+            if x.get('k') == 'addr':
+                v = _uncast(x['e'])
+                if isinstance(v, dict) and v.get('k') == 'var':
+                    addr_taken.add(v['name'])
+    if not any(_cached_addr(e) and _cached_addr(e)[0] not in addr_taken for e in g.events()):
+        return 0
+
+    def transfer(e, S):
+        kills = set()
+        ev = e['ev']
+        if ev == 'store':
+            l = strip(e['lhs'])
+            if isinstance(l, dict) and l.get('k') == 'var':
+                kills.add(l['name'])
+        elif ev == 'decl':
+            kills.add(e['name'])
+        elif ev == 'call':
+            for a in e.get('args', []):
+                a = strip(a)
+                if isinstance(a, dict) and a.get('k') == 'addr':
+                    v = _uncast(a['e'])
+                    if isinstance(v, dict) and v.get('k') == 'var':
+                        kills.add(v['name'])
+        if kills:
+            S = frozenset(x for x in S if x[0] not in kills and not (x[2] & kills))
+        c = _cached_addr(e)
+        if c and c[0] not in addr_taken and not (c[2] & addr_taken):
+            S = frozenset(x for x in S if x[0] != c[0]) | {(c[0], json.dumps(c[1], sort_keys=True), frozenset(c[2]))}
+        return S
+    _, ev_in = forward(g, frozenset(), transfer, lambda a, b: a & b)
+    n = [0]
+
+    def rewrite(x, S):
+        avail = {v: ex for (v, ex, _) in S}
+
+        def r(nd):
+            if nd.get('k') == 'load':
+                inner = nd.get('e')
+                if isinstance(inner, dict) and inner.get('k') == 'var' and inner.get('vk') == 'local' and inner['name'] in avail:
+                    n[0] += 1
+                    out = json.loads(avail[inner['name']])
+                    out['_was'] = inner['name']
+                    return out
+            return None
+        return simplify(subst(x, r))
+
+    for b, blk in g.blocks.items():
+        for i, e in enumerate(blk.events):
+            S = ev_in.get((b, i))
+            if not S:
+                continue
+            for key in ('rhs', 'args', 'fnexpr', 'value', 'init', 'e'):
+                if key in e and isinstance(e[key], (dict, list)):
+                    e[key] = rewrite(e[key], S)
+            if e['ev'] == 'store' and strip(e['lhs']).get('k') != 'var':
+                e['lhs'] = rewrite(e['lhs'], S)
+        S = ev_in.get((b, len(blk.events)))
+        if S and blk.term and blk.term.get('cond') is not None:
+            blk.term = dict(blk.term, cond=rewrite(blk.term['cond'], S))
+    return n[0]
+
+
+def _global_path(x):
+    """'g.a.b' when x is a chain of `.` member selections on a file-scope / static variable g, else None."""
+    names = []
+    while isinstance(x, dict) and x.get('k') == 'member' and not x.get('arrow'):
+        names.append(x['field'])
+        x = x['base']
+    if names and isinstance(x, dict) and x.get('k') == 'var' and x.get('vk') in ('global', 'staticlocal'):
+        return '.'.join([x['name']] + list(reversed(names)))
+    return None
+
+
+def scalarise_globals(g):
+    """File-scope state grouped into a struct (`static struct { int use_raw; ... } cfg;`): every scalar member path
+    `cfg.use_raw` whose address is never taken is a variable of its own; rewrite it to a pseudo global variable named by
+    its path, so that the value tracking of file-scope flags (atoms, environments, copies into helper results) treats it
+    exactly as it treats a plain `static int use_raw;`.  Mutates g; returns the set of paths rewritten."""
+    from ..core import subst
+    paths, blocked = set(), set()
+
+    def scan(x, under_addr):
+        if isinstance(x, list):
+            for y in x:
+                scan(y, under_addr)
+            return
+        if not isinstance(x, dict):
+            return
+        p_ = _global_path(x) if x.get('k') == 'member' else None
+        if p_ is not None:
+            if under_addr or x.get('trecord') or x.get('bound') is not None:
+                blocked.add(p_)
+            else:
+                paths.add(p_)
+            # prefixes used as whole objects are found when they are visited as `var` below
+            return
+        k = x.get('k')
+        if k == 'var' and x.get('vk') in ('global', 'staticlocal') and x.get('record') and not x.get('ptr'):
+            blocked.add(x['name'])           # the struct as a whole (copied, passed, address taken)
+        for key, v in x.items():
+            if key in ('sizeof', '_was'):
+                continue
+            if isinstance(v, (dict, list)):
+                scan(v, under_addr or k in ('addr', 'index'))
+    for e in g.events():
+        for key in ('lhs', 'rhs', 'args', 'fnexpr', 'value', 'init', 'e'):
+            if key in e:
+                scan(e[key], False)
+    for blk in g.blocks.values():
+        if blk.term and blk.term.get('cond') is not None:
+            scan(blk.term['cond'], False)
+    ok = {p_ for p_ in paths if p_ not in blocked and not any(p_.startswith(b_ + '.') or b_.startswith(p_ + '.') or b_ == p_.split('.')[0]
+                                                             for b_ in blocked)}
+    if not ok:
+        return ok
+
+    def r(nd):
+        if nd.get('k') == 'member':
+            p_ = _global_path(nd)
+            if p_ in ok:
+                out = {'k': 'var', 'name': p_, 'vk': 'global'}
+                for key in ('type', 'loc', '_was'):
+                    if key in nd:
+                        out[key] = nd[key]
+                return out
+        return None
+    for blk in g.blocks.values():
+        for e in blk.events:
+            for key in ('lhs', 'rhs', 'args', 'fnexpr', 'value', 'init', 'e'):
+                if key in e and isinstance(e[key], (dict, list)):
+                    e[key] = subst(e[key], r)
+        if blk.term and blk.term.get('cond') is not None:
+            blk.term = dict(blk.term, cond=subst(blk.term['cond'], r))
+    return ok
+
+
+def inline(prog, f, **kw):
+    """Inliner(prog, **kw).inline(f) followed by the local normalisations: cached addresses resolved, scalar members of
+    file-scope structs turned into variables."""
+    from ..core import Inliner
+    g = Inliner(prog, **kw).inline(f)
+    deaddr(g)
+    scalarise_globals(g)
+    return g
+
+
+def mentions_addr_of(f, keys):
+    """Does any event of f take the address of a member in keys?"""
+    for e in f.events():
+        for x in walk(e):
+            if x.get('k') == 'addr' and last_member(x.get('e')) in keys:
+                return True
+    return False
+
+
+def normalised(prog, f, keys):
+    """f itself, or (when f takes the address of one of the fields in keys) a private copy of f with cached addresses
+    resolved.  Cached on the program object."""
+    cache = prog.__dict__.setdefault('_h07_norm', {})
+    k = (f.q, tuple(sorted(keys)))
+    if k not in cache:
+        if f.blocks and mentions_addr_of(f, keys):
+            cache[k] = inline(prog, f, depth=0)
+        else:
+            cache[k] = f
+    return cache[k]
+
+
+def escaping_addrs(g, keys):
+    """Events of g in which the address of a member in keys is still taken after deaddr(), other than the
+    definition of a pointer local that is never read any more (all its uses were resolved)."""
+    read = set()
+    for e in g.events():
+        for x in walk(e):
+            if x.get('k') == 'load':
+                v = x.get('e')
+                if isinstance(v, dict) and v.get('k') == 'var':
+                    read.add(v['name'])
+    for blk in g.blocks.values():
+        if blk.term:
+            for x in walk(blk.term):
+                if x.get('k') == 'load':
+                    v = x.get('e')
+                    if isinstance(v, dict) and v.get('k') == 'var':
+                        read.add(v['name'])
+    out = []
+    for e in g.events():
+        hit = [x for x in walk(e) if x.get('k') == 'addr' and last_member(x.get('e')) in keys]
+        if not hit:
+            continue
+        c = _cached_addr(e)
+        if c and len(hit) == 1 and hit[0] is _uncast(e['rhs']) and c[0] not in read:
+            continue
+        out.append(e)
+    return out
+
+
+# --------------------------------------------------------------------------
 # integer sample-domain feasibility
 # --------------------------------------------------------------------------
 
@@ -109,16 +409,44 @@ def values_allowed(constraints, domain=None):
 # delta analysis with value correlation
 # --------------------------------------------------------------------------
 
+def _copied_var(e):
+    """name of the variable whose value a plain store copies: `x = y`, `x = (y = f())`"""
+    r = strip(e['rhs'])
+    if isinstance(r, dict) and r.get('k') == 'assign' and r.get('op') == '=':
+        r = strip(r['l'])
+    if isinstance(r, dict) and r.get('k') == 'var' and r.get('vk') in ('local', 'param', 'global', 'staticlocal'):
+        return r['name']
+    return None
+
+
+def _propagate_copies(env):
+    """env entries '=x' -> y say x and y hold the same value: share what is known, None when contradictory"""
+    for k_, y in [(k_, v_) for k_, v_ in env.items() if k_[:1] == '=']:
+        x = k_[1:]
+        vx, vy = env.get(x, '?'), env.get(y, '?')
+        if vx == '?' and vy != '?':
+            env[x] = vy
+        elif vy == '?' and vx != '?':
+            env[y] = vx
+        elif vx != '?' and vy != '?' and vx != vy:
+            zx = vx == ('c', 0)
+            zy = vy == ('c', 0)
+            if zx != zy or (isinstance(vx, tuple) and isinstance(vy, tuple)):
+                return None
+    return env
+
+
 class DeltaResult:
     def __init__(self):
         self.at = {}
         self.rets = []
+        self.rets_aux = []
         self.exit_states = frozenset()
         self.ev_in = {}
 
 
 def delta(fn, counters, discr=(), stop=None, call_delta=None, reset=None, maxstates=768,
-          assume_dropped_success=True, root_only_rets=True, alias=None, saturate=False):
+          assume_dropped_success=True, root_only_rets=True, alias=None, saturate=False, aux=None):
     """Disjunctive forward analysis of the net change of `counters` ((record, field) pairs) along every
     path.  A state is (deltas, env, preds, live, base, sym):
        deltas : net change of every counter since the start (or the last `reset` event)
@@ -132,19 +460,31 @@ def delta(fn, counters, discr=(), stop=None, call_delta=None, reset=None, maxsta
     Result: .rets [(ret event | None, deltas, return class, preds)], .exit_states, .at {id(e): (e, states)}
     for events with stop(e).  alias {(record, field): (index, sign)} folds further counters into an existing
     component with a sign (so that a *difference* of two counters can be tracked through loops).  saturate:
-    a component that drifts beyond +-8 sticks at +-9 instead of raising AnalysisBroken."""
+    a component that drifts beyond +-8 sticks at +-9 instead of raising AnalysisBroken.
+    aux = (initial value, transfer(e, a) -> a, edge(blk, succ index, a) -> a): a further, caller-defined component of
+    every state (hashable), carried path-sensitively; reported in .rets_aux [(ret event, deltas, return class, preds, a)]."""
     cidx = {c: i for i, c in enumerate(counters)}
     alias = alias or {}
     zero = tuple(0 for _ in counters)
     discr = set(discr)
     relevant = relevant_vars(fn)
+    # locals that branch conditions test (`raw = flag ? 1 : 0; if (raw) A(); if (!raw) B();`): what one test learns
+    # about the local decides the later ones, as long as the local is not reassigned (liveness-bounded)
+    assigned = {strip(x['lhs'])['name'] for x in fn.events()
+                if x['ev'] == 'store' and isinstance(strip(x['lhs']), dict) and strip(x['lhs']).get('k') == 'var'}
+    for blk_ in fn.blocks.values():
+        c_ = blk_.term.get('cond') if blk_.term else None
+        if c_ is not None and blk_.term.get('cls') not in ('SwitchStmt', 'MethodDispatch'):
+            for y in walk(c_):
+                if y.get('k') == 'var' and y.get('vk') == 'local' and y['name'] in assigned:
+                    relevant.add(y['name'])
     live_after = liveness(fn, relevant)
     globals_seen = set()
     for x in fn.events():
         for y in walk(x):
             if y.get('k') == 'var' and y.get('vk') in ('global', 'staticlocal'):
                 globals_seen.add(y['name'])
-    fresh = (zero, (), frozenset(), frozenset(), frozenset(), ())
+    fresh = (zero, (), frozenset(), frozenset(), frozenset(), (), aux[0] if aux else None)
 
     def key_of(lhs):
         steps = lvalue_steps(lhs)
@@ -182,9 +522,9 @@ def delta(fn, counters, discr=(), stop=None, call_delta=None, reset=None, maxsta
                 return (ck, 0)
             return (ck, -1 if x['op'] == '++' else 1)      # the store event has already been applied
         if k == 'var' and x.get('vk') in ('local', 'param'):
-            for (n, ck, off) in sym:
-                if n == x['name']:
-                    return (ck, -off)
+            for s_ in sym:
+                if s_[0] == x['name'] and len(s_) == 3:
+                    return (s_[1], -s_[2])
             return None
         ck = read_key(x)
         if ck is not None:
@@ -196,6 +536,36 @@ def delta(fn, counters, discr=(), stop=None, call_delta=None, reset=None, maxsta
             b_ = rel(x['r'], sym)
             if b_ is not None and int_of(x['l']) is not None and x['op'] == '+':
                 return (b_[0], b_[1] + int_of(x['l']))
+        return None
+
+    def brel(x, sym):
+        """(counter key, off, op, k) when the truth of x is `(current value of the counter + off) op k`:
+        a comparison of a counter-relative value with a constant, its negation, or a local holding one."""
+        x = strip(x)
+        if not isinstance(x, dict):
+            return None
+        k = x.get('k')
+        if k == 'var' and x.get('vk') in ('local', 'param'):
+            for s_ in sym:
+                if s_[0] == x['name'] and len(s_) == 5:
+                    return (s_[1], -s_[2], s_[3], s_[4])
+            return None
+        if k == 'un' and x.get('op') == '!':
+            b_ = brel(x['e'], sym)
+            if b_ is not None:
+                return (b_[0], b_[1], NEG[b_[2]], b_[3])
+            r_ = rel(x['e'], sym)
+            return (r_[0], r_[1], '==', 0) if r_ is not None else None
+        if k == 'bin' and x.get('op') in _CMP:
+            l_, r2, op_ = x['l'], x['r'], x['op']
+            if int_of(l_) is not None and int_of(r2) is None:
+                l_, r2, op_ = r2, l_, SWAP[op_]
+            r_ = rel(l_, sym)
+            if r_ is not None and int_of(r2) is not None:
+                return (r_[0], r_[1], op_, int_of(r2))
+            b_ = brel(l_, sym)
+            if b_ is not None and int_of(r2) == 0 and op_ in ('==', '!='):
+                return b_ if op_ == '!=' else (b_[0], b_[1], NEG[b_[2]], b_[3])
         return None
 
     def lin(x, d, sym):
@@ -217,7 +587,9 @@ def delta(fn, counters, discr=(), stop=None, call_delta=None, reset=None, maxsta
         return tuple(d2)
 
     def tr_one(e, st):
-        d, envk, preds, live, base, sym = st
+        d, envk, preds, live, base, sym, ax = st
+        if aux:
+            ax = aux[1](e, ax)
         ev = e['ev']
         if ev == 'store':
             key = key_of(e['lhs'])
@@ -235,8 +607,8 @@ def delta(fn, counters, discr=(), stop=None, call_delta=None, reset=None, maxsta
                 else:
                     d = bump(d, alias[key][0], alias[key][1] * n, key)
                 if sym:
-                    sym = tuple((nm_, k_, o_ + n if k_ == key else o_) for (nm_, k_, o_) in sym
-                                if not (k_ == key and abs(o_ + n) > 16))
+                    sym = tuple((s_[0], s_[1], s_[2] + n if s_[1] == key else s_[2]) + tuple(s_[3:]) for s_ in sym
+                                if not (s_[1] == key and abs(s_[2] + n) > 16))
             for stp in lvalue_steps(e['lhs']):
                 if stp in discr and live:
                     live = frozenset(p for p in live if p[0] != stp)
@@ -248,17 +620,35 @@ def delta(fn, counters, discr=(), stop=None, call_delta=None, reset=None, maxsta
                     r_ = rel(e['rhs'], sym)
                     if r_ is not None:
                         new = (nm, r_[0], -r_[1])
+                    else:
+                        b_ = brel(e['rhs'], sym)          # `first = (old == 0);`
+                        if b_ is not None:
+                            new = (nm, b_[0], -b_[1], b_[2], b_[3])
                 if sym and any(s_[0] == nm for s_ in sym):
                     sym = tuple(s_ for s_ in sym if s_[0] != nm)
                 if new is not None:
                     sym = tuple(sorted(set(sym) | {new}))
+                env = dict(envk)
+                dirty = False
+                # copies of nm are no longer copies
+                for k_ in [k_ for k_, v_ in env.items() if k_ == '=' + nm or (k_[:1] == '=' and v_ == nm)]:
+                    env.pop(k_)
+                    dirty = True
                 if nm in relevant:
-                    env = dict(envk)
                     v = aval(e['rhs'], env) if e['op'] == '=' and 'rhs' in e else '?'
                     if v == '?':
                         env.pop(nm, None)
+                        src = _copied_var(e) if e['op'] == '=' and 'rhs' in e else None
+                        if src is not None and src != nm and src in relevant:
+                            # `err = ret;` with ret not known yet: what a later test learns about one holds for the other
+                            if env.get(src, '?') != '?':
+                                env[nm] = env[src]
+                            else:
+                                env['=' + nm] = src
                     else:
                         env[nm] = v
+                    dirty = True
+                if dirty:
                     envk = _envkey(env)
             if call_delta:
                 cd = call_delta(e)          # open-coded operations (list link / unlink written as stores)
@@ -278,7 +668,8 @@ def delta(fn, counters, discr=(), stop=None, call_delta=None, reset=None, maxsta
             env = None
             if 'fnexpr' in e:
                 # user code may run: file-scope flags, counter values and tested fields may all change
-                env = {k: v for k, v in dict(envk).items() if k not in globals_seen}
+                env = {k: v for k, v in dict(envk).items()
+                       if k not in globals_seen and not (k[:1] == '=' and v in globals_seen)}
                 base, sym, live = frozenset(), (), frozenset()
             for a in e.get('args', []):
                 a = strip(a)
@@ -288,6 +679,8 @@ def delta(fn, counters, discr=(), stop=None, call_delta=None, reset=None, maxsta
                         if env is None:
                             env = dict(envk)
                         env.pop(v['name'], None)
+                        for k_ in [k_ for k_, v_ in env.items() if k_ == '=' + v['name'] or (k_[:1] == '=' and v_ == v['name'])]:
+                            env.pop(k_)
                         if sym:
                             sym = tuple(s_ for s_ in sym if s_[0] != v['name'])
             if env is not None:
@@ -298,7 +691,7 @@ def delta(fn, counters, discr=(), stop=None, call_delta=None, reset=None, maxsta
                     for i_, n_ in enumerate(cd):
                         if n_:
                             d = bump(d, i_, n_, counters[i_])
-        return (d, envk, preds, live, base, sym)
+        return (d, envk, preds, live, base, sym, ax)
 
     def transfer(e, S):
         if reset is not None and reset(e):
@@ -310,13 +703,50 @@ def delta(fn, counters, discr=(), stop=None, call_delta=None, reset=None, maxsta
             r = tr_one(e, st)
             if r is not None:
                 if la is not None and r[1]:
-                    r = (r[0], tuple(kv for kv in r[1] if kv[0] in la or kv[0] in globals_seen)) + r[2:]
+                    r = (r[0], tuple(kv for kv in r[1] if kv[0] in la or kv[0] in globals_seen
+                                     or (kv[0][:1] == '=' and kv[0][1:] in la
+                                         and (kv[1] in la or kv[1] in globals_seen)))) + r[2:]
                 out.add(r)
         if len(out) > maxstates:
             raise AnalysisBroken('state explosion in delta analysis of %s' % fn.name)
         return frozenset(out)
 
     def edge(blk, si, S):
+        if blk.term and blk.term.get('cls') == 'SwitchStmt' and blk.term.get('cases') and blk.term.get('cond') is not None \
+                and si < len(blk.term['cases']):
+            # switch on a tracked local / constant: only the matching label's edge when the value is known, and the
+            # label's value is known on its edge
+            cases = blk.term['cases']
+            labels = [c_ for c_ in cases if c_ != 'default']
+            cv = strip(blk.term['cond'])
+            nm = cv['name'] if isinstance(cv, dict) and cv.get('k') == 'var' and cv.get('vk') in ('local', 'param') \
+                and cv['name'] in relevant else None
+            out = set()
+            lm = last_member(blk.term['cond'])
+            if lm in discr:
+                # switch on a discriminating field: the label edge says field == label, the default edge field != label
+                # for every label (same bookkeeping as for if-tests: arm classification and feasibility)
+                new = {(lm, '==', cases[si])} if cases[si] != 'default' else {(lm, '!=', k_) for k_ in labels}
+                for st in S:
+                    l2 = st[3] | new
+                    if values_allowed([(o_, k_) for (m_, o_, k_) in l2 if m_ == lm]):
+                        out.add(st[:2] + (st[2] | new, l2) + st[4:])
+                return frozenset(out) if out else None
+            for st in S:
+                v = aval(blk.term['cond'], dict(st[1]))
+                if isinstance(v, tuple):
+                    hit = cases[si] == v[1] if cases[si] != 'default' else v[1] not in labels
+                    if hit:
+                        out.add(st)
+                elif nm is not None and cases[si] != 'default' and not (v == 'nz' and cases[si] == 0):
+                    env = dict(st[1])
+                    env[nm] = ('c', cases[si])
+                    env = _propagate_copies(env)
+                    if env is not None:
+                        out.add((st[0], _envkey(env)) + st[2:])
+                elif not (v == 'nz' and cases[si] == 0):
+                    out.add(st)
+            return frozenset(out) if out else None
         if not blk.term or len(blk.succ) < 2 or blk.term.get('cls') in ('SwitchStmt', 'MethodDispatch'):
             return S
         c = blk.term.get('cond')
@@ -324,9 +754,11 @@ def delta(fn, counters, discr=(), stop=None, call_delta=None, reset=None, maxsta
             return S
         atoms = norm_cond(c, si == 0)
         out = set()
-        for (d, envk, preds, live, base, sym) in S:
+        for (d, envk, preds, live, base, sym, ax) in S:
             env0 = dict(envk)
             env = refine(env0, atoms, relevant)
+            if env is not None:
+                env = _propagate_copies(env)
             if env is None:
                 continue
             v = aval(c, env0)
@@ -353,9 +785,18 @@ def delta(fn, counters, discr=(), stop=None, call_delta=None, reset=None, maxsta
                         b2 = b2 | {(lv[0], op, rv[1] - lv[1])}
                         if not values_allowed([(o_, k_) for (i_, o_, k_) in b2 if i_ == lv[0]]):
                             dead = True
+                    elif rv[1] == 0 and op in ('==', '!='):
+                        # a local that holds the outcome of an earlier test of the counter (`first = (old == 0)`)
+                        bl = brel(l, sym)
+                        if bl is not None and bl[0] in cidx:
+                            i_b = cidx[bl[0]]
+                            opb = bl[2] if op == '!=' else NEG[bl[2]]
+                            b2 = b2 | {(i_b, opb, bl[3] - (d[i_b] + bl[1]))}
+                            if not values_allowed([(o_, k_) for (i_, o_, k_) in b2 if i_ == i_b]):
+                                dead = True
             if dead:
                 continue
-            out.add((d, _envkey(env), p2, l2, b2, sym))
+            out.add((d, _envkey(env), p2, l2, b2, sym, aux[2](blk, si, ax) if aux else ax))
         return frozenset(out) if out else None
 
     _, ev_in = forward(fn, frozenset([fresh]), transfer, lambda a, b: a | b, edge=edge)
@@ -374,6 +815,7 @@ def delta(fn, counters, discr=(), stop=None, call_delta=None, reset=None, maxsta
                     if 'value' in e:
                         rc = aval(e['value'], dict(st[1]))
                     res.rets.append((e, st[0], rc, st[2]))
+                    res.rets_aux.append((e, st[0], rc, st[2], st[6]))
     res.exit_states = frozenset((st[0], st[1], st[2]) for st in ev_in.get((fn.exit, 0), frozenset()))
     return res
 
@@ -438,9 +880,82 @@ def site_kind(fn, e):
     return callback_kind(e)
 
 
+def passed_callbacks(fn, e):
+    """Kinds of user callbacks whose function pointer (read from a callback field, possibly through a caching local) the
+    direct call e hands to its callee (`iv_invoke(t->handler, t->cookie)`): the callee is a trampoline for them."""
+    out = []
+    if e['ev'] != 'call' or 'callee' not in e:
+        return out
+    for a in e.get('args', []):
+        vm = value_member(fn, a)
+        if vm in CALLBACK_FIELDS:
+            out.append(('callback', CALLBACK_FIELDS[vm]))
+        elif vm in HOOK_FIELDS:
+            out.append(('hook', HOOK_FIELDS[vm]))
+    return out
+
+
 # --------------------------------------------------------------------------
 # transitive effects of calls
 # --------------------------------------------------------------------------
+
+def const_targets(prog, owner, fnexpr):
+    """Functions an indirect call may enter when the called pointer is read from a constant table: a (const or never
+    written) global with an initialiser, reached by constant or variable indexing and member selection
+    (`stages[i].run(st)`, `ops.tasks(st)`).  None when the expression is not such a read."""
+    x = strip(fnexpr)
+    path = []
+    while isinstance(x, dict):
+        k = x.get('k')
+        if k == 'member' and not x.get('arrow'):
+            path.append(('f', x['field']))
+            x = strip_cast(x['base'])
+        elif k == 'index' and 'bound' in x:
+            i = strip(x['idx'])
+            path.append(('i', i['v'] if isinstance(i, dict) and i.get('k') == 'int' else None))
+            x = strip_cast(x['base'])
+        elif k == 'deref':
+            x = strip(x['e'])       # (*table[i])(...)
+        else:
+            break
+    if not (isinstance(x, dict) and x.get('k') == 'var' and x.get('vk') in ('global', 'staticlocal')) or not path:
+        return None
+    u = prog.unit_of(owner) if owner is not None else None
+    gl = prog.global_for(u, x['name']) if u else prog.globals.get(x['name'])
+    if not isinstance(gl, dict) or not isinstance(gl.get('init'), dict):
+        return None
+    if not str(gl.get('type', '')).startswith('const') and prog.global_writers(x['name']):
+        return None
+    nodes = [gl['init']]
+    for (kind, v) in reversed(path):
+        nxt = []
+        for n_ in nodes:
+            if not isinstance(n_, dict) or n_.get('k') != 'init':
+                continue
+            if kind == 'f':
+                if v in n_.get('fields', {}):
+                    nxt.append(n_['fields'][v])
+            else:
+                el = n_.get('elems', [])
+                nxt += el if v is None else el[v:v + 1]
+        nodes = nxt
+    out = []
+    for n_ in nodes:
+        n_ = strip(n_)
+        if isinstance(n_, dict) and n_.get('k') == 'addr':
+            n_ = strip(n_['e'])
+        if isinstance(n_, dict) and n_.get('k') == 'var' and n_.get('vk') == 'func':
+            t = prog.resolve(gl.get('unit'), n_['name']) if gl.get('unit') else prog.funcs.get(n_['name'])
+            if t is not None and t not in out:
+                out.append(t)
+    return out or None
+
+
+def strip_cast(x):
+    while isinstance(x, dict) and x.get('k') in ('cast', 'paren', 'load') and 'e' in x:
+        x = x['e']
+    return x
+
 
 class Effects:
     """tags(f): what calling f may do, transitively over direct calls and poll-method slots:
@@ -453,9 +968,13 @@ class Effects:
         self.watch = set(watch)
         own, callees = {}, {}
         funcs = prog.all_funcs()
-        for f in funcs:
+        for f0 in funcs:
             t, cs = set(), set()
-            u = prog.unit_of(f)
+            u = prog.unit_of(f0)
+            f = normalised(prog, f0, self.watch) if self.watch else f0
+            if f is not f0 and escaping_addrs(f, self.watch):
+                # the address of a watched field leaves the function: whoever gets it may write the field
+                t |= {('w',) + tuple(k) for k in self.watch}
             for e in f.events():
                 if e['ev'] == 'store':
                     k = counter_key(e)
@@ -467,9 +986,17 @@ class Effects:
                         # a call that never returns cannot influence what the caller does next
                         if g is not None and g.blocks and not (g.noreturn or e.get('noreturn')):
                             cs.add(g.q)
+                            # a handler pointer handed to a repo function: that function is a trampoline for it
+                            for (_, kind_) in passed_callbacks(f, e):
+                                t.add(('cb', kind_))
                     else:
                         sk = site_kind(f, e)
                         if sk is None:
+                            continue
+                        ct = const_targets(prog, f0, e['fnexpr']) if sk[0] not in ('method', 'callback', 'hook') else None
+                        if ct:
+                            # table-driven dispatch: the call enters one of the functions the constant table lists
+                            cs.update(g.q for g in ct if g.blocks and not g.noreturn)
                             continue
                         if sk[0] == 'method':
                             if sk[1] == 'poll':
@@ -506,10 +1033,24 @@ class Effects:
             g = prog.resolve(u, e['callee']) if u else prog.funcs.get(e['callee'])
             if g is not None and (g.noreturn or e.get('noreturn')):
                 return set()
-            return self.of_func(g)
+            t = set(self.of_func(g))
+            if g is not None and g.blocks and owner is not None:
+                t |= {('cb', kind_) for (_, kind_) in passed_callbacks(owner, e)}
+            return t
         sk = site_kind(owner, e) if owner is not None else callback_kind(e)
         if sk is None:
             return set()
+        ct = const_targets(prog, owner, e['fnexpr']) if sk[0] not in ('method', 'callback', 'hook') else None
+        if ct:
+            t = set()
+            for g in ct:
+                if not g.noreturn:
+                    t |= self.of_func(g)
+            # ('cb', 'task') is used as "task handlers *are* run by this call": with several possible targets only when
+            # every one of them does
+            if ('cb', 'task') in t and not all(('cb', 'task') in self.of_func(g) for g in ct):
+                t = (t - {('cb', 'task')}) | {('cb', 'unknown')}
+            return t
         if sk[0] == 'method':
             t = {('block',)} if sk[1] == 'poll' else set()
             for g in prog.slot_targets(sk[1]):
@@ -575,6 +1116,37 @@ def only_through(prog, f, gate):
     return True
 
 
+def param_values(prog, f, x, depth=3):
+    """The set of integers expression x of function f can evaluate to when x is a constant or a (never reassigned)
+    parameter of f that every caller passes a constant for (followed up the call graph a few levels); None when
+    that cannot be established (address of f taken, no caller, computed argument)."""
+    v = int_of(x)
+    if v is not None:
+        return {v}
+    y = strip(x)
+    if not (isinstance(y, dict) and y.get('k') == 'var' and y.get('vk') == 'param') or depth <= 0:
+        return None
+    idx = [i for i, p_ in enumerate(f.params) if p_['name'] == y['name']]
+    if not idx or f.q in roles.address_taken(prog):
+        return None
+    for e in f.events():
+        if e['ev'] == 'store' and strip(e['lhs']).get('k') == 'var' and strip(e['lhs'])['name'] == y['name']:
+            return None
+    cs = [(c, e) for (c, e) in prog.callers_of(f.name)
+          if (prog.resolve(prog.unit_of(c), e['callee']) if prog.unit_of(c) else None) in (None, f)]
+    if not cs:
+        return None
+    out = set()
+    for (c, e) in cs:
+        if idx[0] >= len(e.get('args', [])):
+            return None
+        r = param_values(prog, c, e['args'][idx[0]], depth - 1)
+        if r is None:
+            return None
+        out |= r
+    return out
+
+
 # --------------------------------------------------------------------------
 # copy families of object variables (definition-based formulations)
 # --------------------------------------------------------------------------
@@ -634,17 +1206,64 @@ def obj_root_name(x):
 # list link operations on a typed member, also through a container_of alias
 # --------------------------------------------------------------------------
 
+class Aliases(set):
+    """Spellings (names / canonical texts) of pointers that denote `&obj->field`; .defs maps a local that was
+    assigned `&obj->field` to that expression (so that the object can be recovered)."""
+
+    def __init__(self, *a):
+        set.__init__(self, *a)
+        self.defs = {}
+
+
 def link_aliases(g, record, field):
-    """Spellings of pointers that are `&obj->field` for an obj of `record` because obj was computed from them
-    by container_of (`ilh = batch.next; t = iv_list_entry(ilh, struct iv_task_, list)`)."""
-    out = set()
+    """Pointers that are `&obj->field` for an obj of `record`:
+      * because obj was computed from them by container_of (`ilh = batch.next; t = iv_list_entry(ilh, struct
+        iv_task_, list)`),
+      * locals every definition of which is `&obj->field` (or a copy of such a local):
+        `lh = &t->list_expired; ... iv_list_add_tail(lh, &timers)`."""
+    out = Aliases()
     for e in g.events():
         if e['ev'] == 'store' and 'rhs' in e:
             r = strip(e['rhs'])
             if isinstance(r, dict) and r.get('k') == 'container_of' and (r.get('record'), r.get('member')) == (record, field):
                 out |= names_of(r['e'])
                 out.add(canon(r['e']))
+    defs = {}
+    for e in g.events():
+        if e['ev'] == 'store':
+            l = strip(e['lhs'])
+            if isinstance(l, dict) and l.get('k') == 'var' and l.get('vk') == 'local':
+                defs.setdefault(l['name'], []).append(e)
+    good, changed = {}, True
+    while changed:
+        changed = False
+        for n, evs in defs.items():
+            if n in good:
+                continue
+            xs = []
+            for e in evs:
+                r = strip(e['rhs']) if e.get('op') == '=' and 'rhs' in e else None
+                if isinstance(r, dict) and r.get('k') == 'addr' and last_member(r['e']) == (record, field):
+                    xs.append(r)
+                elif isinstance(r, dict) and r.get('k') == 'var' and r.get('name') in good:
+                    xs.append(good[r['name']])
+                else:
+                    xs = None
+                    break
+            if xs:
+                good[n] = xs[0]
+                changed = True
+    out.defs = good
     return out
+
+
+def _ptr_def(p, aliases):
+    """The `&obj->field` expression a local pointer stands for (see link_aliases), else the expression itself."""
+    a = strip(p)
+    d = getattr(aliases, 'defs', None)
+    if d and isinstance(a, dict) and a.get('k') == 'var' and a.get('name') in d:
+        return d[a['name']]
+    return p
 
 
 def _is_link_of(ptr_or_obj, is_ptr, record, field, aliases):
@@ -652,7 +1271,7 @@ def _is_link_of(ptr_or_obj, is_ptr, record, field, aliases):
     (as an lvalue when not is_ptr, as a pointer to it when is_ptr)?"""
     if not is_ptr:
         return last_member(ptr_or_obj) == (record, field)
-    a = strip(ptr_or_obj)
+    a = strip(_ptr_def(ptr_or_obj, aliases))
     if isinstance(a, dict) and a.get('k') == 'addr' and last_member(a['e']) == (record, field):
         return True
     return bool(aliases) and bool(names_of(ptr_or_obj) & set(aliases) or canon(ptr_or_obj) in aliases)
@@ -670,7 +1289,7 @@ def link_site(e, record, field, aliases=()):
     if e['ev'] == 'call' and e.get('callee') in ('iv_list_add', 'iv_list_add_tail', 'iv_list_del', 'iv_list_del_init') \
             and e.get('args'):
         if _is_link_of(e['args'][0], True, record, field, aliases):
-            return (1 if e['callee'] in ('iv_list_add', 'iv_list_add_tail') else -1, e['args'][0])
+            return (1 if e['callee'] in ('iv_list_add', 'iv_list_add_tail') else -1, _ptr_def(e['args'][0], aliases))
         return None
     if e['ev'] == 'store' and e.get('op') == '=' and 'rhs' in e:
         l = strip(e['lhs'])
@@ -685,11 +1304,11 @@ def link_site(e, record, field, aliases=()):
             x1, p1 = _head_of(hp)
             x2, p2 = _head_of(r)
             if p1 == p2 and canon(x1) == canon(x2) and _is_link_of(x1, p1, record, field, aliases):
-                return (-1, x1 if p1 else {'k': 'addr', 'e': x1})
+                return (-1, _ptr_def(x1, aliases) if p1 else {'k': 'addr', 'e': x1})
             return None
         # <other head>->next = X
         if _is_link_of(e['rhs'], True, record, field, aliases) and not _is_link_of(head, isptr, record, field, aliases):
-            return (1, e['rhs'])
+            return (1, _ptr_def(e['rhs'], aliases))
     return None
 
 
@@ -849,6 +1468,77 @@ def truth(facts, env, x):
     if v == '?':
         return '?'
     return v if lf[1] else _flip(v)
+
+
+def value(facts, env, x):
+    """The integer x evaluates to under env when that is decided: a constant, a local whose stored value is known
+    (env[('val', name)]), `c ? a : b` with c decided, !, comparisons and +/- of decided values.  Else None."""
+    x = strip(x)
+    if not isinstance(x, dict):
+        return None
+    k = x.get('k')
+    if k == 'int':
+        return x['v']
+    if k == 'null':
+        return 0
+    if k == 'var' and x.get('vk') in ('local', 'param'):
+        return env.get(('val', x['name']))
+    if k == 'cond':
+        c = truth(facts, env, x['c'])
+        if c == 'nz':
+            return value(facts, env, x['a'])
+        if c == 'z':
+            return value(facts, env, x['b'])
+        a, b = value(facts, env, x['a']), value(facts, env, x['b'])
+        return a if a == b else None
+    if k == 'un' and x.get('op') == '!':
+        t = truth(facts, env, x['e'])
+        return {'z': 1, 'nz': 0}.get(t)
+    if k == 'un' and x.get('op') == '-':
+        v = value(facts, env, x['e'])
+        return None if v is None else -v
+    if k == 'bin' and x.get('op') in _CMP:
+        a, b = value(facts, env, x['l']), value(facts, env, x['r'])
+        if a is not None and b is not None:
+            return int(_CMP[x['op']](a, b))
+        t = truth(facts, env, x)
+        return {'z': 0, 'nz': 1}.get(t)
+    if k == 'bin' and x.get('op') in ('&&', '||'):
+        t = truth(facts, env, x)
+        return {'z': 0, 'nz': 1}.get(t)
+    if k == 'bin' and x.get('op') in ('+', '-'):
+        a, b = value(facts, env, x['l']), value(facts, env, x['r'])
+        if a is not None and b is not None:
+            return a + b if x['op'] == '+' else a - b
+    return None
+
+
+def switch_edge(facts, env, term, si):
+    """Environments on the si-th edge of a switch terminator (term['cases'] parallel to the successors): the edge of
+    the matching label only when the controlling value is decided, else each label edge refined by `cond == label`
+    and the default edge by `cond != label` for every label."""
+    cases = term.get('cases')
+    cond = term.get('cond')
+    if not cases or cond is None or si >= len(cases):
+        return [env]
+    v = value(facts, env, cond)
+    labels = [c for c in cases if c != 'default']
+    if v is not None:
+        hit = cases[si] == v if cases[si] != 'default' else v not in labels
+        return [env] if hit else []
+
+    def eq(kv):
+        return {'k': 'bin', 'op': '==', 'l': cond, 'r': {'k': 'int', 'v': kv}}
+    if cases[si] != 'default':
+        out = assume(facts, env, eq(cases[si]), True)
+        c = strip(cond)
+        if isinstance(c, dict) and c.get('k') == 'var' and c.get('vk') in ('local', 'param'):
+            out = [dict(e_, **{('val', c['name']): cases[si]}) for e_ in out]
+        return out
+    envs = [env]
+    for kv in labels:
+        envs = [e2 for e1 in envs for e2 in assume(facts, e1, eq(kv), False)]
+    return envs
 
 
 def assume(facts, env, x, pol):
